@@ -154,6 +154,14 @@ func c06Gen(rt *rapid.T) wProg {
 			}
 		}
 		switch x := gInt(rt, 0, 99, "opk"); {
+		case x < 20 && gPct(rt, 12):
+			// a member who was offered ownership does not accept it but asks for other bits beyond the grant
+			adm := gInt(rt, 1, 2, "offeredraise")
+			if hs := sessOfUser(adm); hs > 0 {
+				p.Ops = append(p.Ops, wOp{K: "sub", S: hs, T: "g0", A: "JRWPS"}, wOp{K: "set", S: 0, T: "g0", A: "given", U: adm, B: gPick(rt, []string{"JRWPSO", "JRWPO"}, "offer2")},
+					wOp{K: "set", S: hs, T: "g0", A: "mode", B: gPick(rt, []string{"JRWPASD", "JRWPAS", "JRWPSD"}, "raise2")},
+					wOp{K: "set", S: hs, T: "g0", A: "given", U: 3 - adm, B: "N"})
+			}
 		case x < 3:
 			// a grant of exactly "N", the subscription removed, the user comes back
 			tgt := gInt(rt, 1, 2, "banned")
@@ -721,6 +729,10 @@ func (o *c07Obs) After(w *wWorld, st *wStep) *kit.Viol {
 				added := b.given &^ a.given
 				if !(a.given.IsAdmin()) || added&types.ModeOwner != 0 && !a.given.IsOwner() {
 					return kit.V("self-raised-grant", "user %d changed own given on %s from %v to %v by %s", tgt, topic, a.given, b.given, st.Req)
+				}
+				if added != 0 && a.given.IsOwner() && !a.want.IsOwner() && !b.want.IsOwner() {
+					// ownership offered and not (being) accepted: the offer is not yet an administrator's grant
+					return kit.V("self-raised-grant:offered-not-accepted", "user %d, who was offered O and has not accepted it (want %v -> %v), changed own given on %s from %v to %v by %s", tgt, a.want, b.want, topic, a.given, b.given, st.Req)
 				}
 				if added&types.ModeDelete != 0 && !a.given.IsOwner() {
 					return kit.V("self-raised-grant-D", "admin user %d gave himself D on %s (%v -> %v) by %s", tgt, topic, a.given, b.given, st.Req)
